@@ -5,7 +5,8 @@ from lib.verif import *
 
 THEOREMS = [
     "C15_settle_sound", "C15_monotone", "C15_amt_paid",
-    "C15_replay_same_verdict", "C15_no_settle_and_cancel", "C15_replay_keysend_refuted",
+    "C15_replay_same_verdict", "C15_replay_same_verdict_amp", "C15_no_settle_and_cancel",
+    "C15_replay_keysend_refuted", "C15_replay_amp_jit_refuted", "C15_amp_kv_reuse_refuted",
 ]
 MODULE = "LV.Invoice.Props"
 TARGETS = ["theories/Invoice/Props.vo", "theories/Invoice/Exec.vo",
@@ -411,8 +412,13 @@ def run(ctx):
         "hash function H is a Section variable (theorems hold for any H); execution uses a "
         "per-case table computed by the harness with crypto/sha256, the python predicate "
         "recomputes SHA-256 itself",
+        "AMP reconstruction (amp.ReconstructChildren) is a Section variable R with NO hypothesis: the "
+        "theorems rest on the code's own checks (child hash = htlc hash, H(preimage) = htlc hash), which "
+        "the model mirrors; execution uses a per-case table computed by the harness with the real amp "
+        "package for every subset of the AMP records of one set id",
         "event-sequence hypothesis of C15_no_settle_and_cancel / C15_replay_same_verdict: a circuit "
-        "key always arrives with the same payment hash (link invariant)",
+        "key always arrives with the same payment hash and onion payload (link invariant); the model "
+        "answers DUnmodelled when a key recorded on an AMP invoice arrives with another set id / no AMP record",
         "one model step = one registry API call (registry mutex + one DB transaction)"])
     env = {}
     rc, trace, out = run_harness(ctx.uid(), "invoices", HARNESS, "^TestVerifRegistry$",
@@ -494,11 +500,14 @@ def run(ctx):
         "evaluations": len(rows),
         "distinct_nontrivial": distinct_count(nontriv, lambda c: [o["ev"] for o in c["ops"]]),
         "rule": "seeded event sequences (AddInvoice, NotifyExitHopHtlc incl. replays, "
-                "SettleHodlInvoice, cancelInvoiceImpl, cancelSingleHtlc) over 2-3 invoices and "
-                "their HTLC sets, every case on the KV and on the SQL store; non-trivial = at "
-                "least one settle resolution or hodl notification; distinct by event list",
+                "SettleHodlInvoice, cancelInvoiceImpl, cancelSingleHtlc by ref and by AMP set id) over "
+                "2-3 invoices and their HTLC sets (model stream) and over 1-2 AMP invoices with 2-4 "
+                "set ids of real amp.SeedSharer shards (AMP stream), every case on the KV and on the "
+                "SQL store; non-trivial = at least one settle resolution or hodl notification; "
+                "distinct by event list",
         "traces_validated_against_impl": len(idx),
-        "predicate_only_cases(AMP)": len(rows) - len(idx),
+        "amp_cases_validated_against_impl": sum(1 for c in rows if c["kind"] == "amp"),
+        "amp_oracle_points": sum(len(c.get("amp_tbl") or []) for c in rows),
         "ops_total": nops, "histograms": hist,
         "samples": [[o["ev"] for o in rows[0]["ops"][:4]]],
         "correspondence_mismatches": len(bad),
@@ -506,8 +515,11 @@ def run(ctx):
         "cases_hitting_known_findings": nknown,
     })
     ctx.assumptions += [
-        "AMP share reconstruction and AMP per-set state are not in the Coq model: AMP cases are "
-        "checked by the trace predicate only",
+        "AMP: invoice-level AmtPaid and AMPState[set].AmtPaid/State are compared with the model and checked "
+        "by the trace predicate; there is no Coq theorem about their values (C15_amt_paid covers settled "
+        "non-AMP invoices); AMPState.InvoiceKeys / settle index are not compared",
+        "KV store, AMP: htlc records may vanish (known finding C15-F2) -- C15_monotone / "
+        "C15_no_settle_and_cancel claim nothing about AMP htlc records when g_kv = true",
         "HTLC interceptor absent (MockHtlcModifier without expectations)",
         "bbolt / sqlite transactions are atomic (one model step per registry call)",
         "goroutine interleavings of concurrent NotifyExitHopHtlc calls are serialised by the "
